@@ -135,6 +135,33 @@ def run(ctx):
                 if exp == "TypeError" and val is None:
                     ok = got_ in ("TypeError", "ValueError")
                 R.oracle(f"nonint {where} {name} {val!r}", ok, dict(input=f"{name}={val!r} ({where}) then make_image", expected=str(exp), observed=str(got_)), tag="P3:non-integer")
+    # fractional values: whatever conversion the library applies, a setting it ACCEPTS must be held in range and the image must
+    # carry a non-negative quiet zone and a positive box (the state held when something is produced decides, not the argument)
+    for val in (-0.999, -0.75, -0.5, -0.25, 0.25, 0.5, 0.75, 1.5, 2.5, 3.999):
+        for where in ("ctor", "assign"):
+            for name in ("border", "box_size"):
+                if name == "box_size" and where == "assign":
+                    continue      # a non-integer box size by assignment reaches the image factory unconverted: outside the integer statement
+                problems = []
+                try:
+                    if where == "ctor":
+                        q = qrcode.QRCode(version=1, **{name: val})
+                    else:
+                        q = qrcode.QRCode(version=1); setattr(q, name, val)
+                    q.add_data("x"); im = q.make_image(image_factory=PyPNGImage)
+                    if not (q.border >= 0):
+                        problems.append(f"image produced while the object holds border={q.border!r}")
+                    if name == "border" or where == "ctor":
+                        if not (q.box_size > 0):
+                            problems.append(f"image produced while the object holds box_size={q.box_size!r}")
+                        if isinstance(im.pixel_size, int) and im.pixel_size < 21 * max(1, int(q.box_size)):
+                            problems.append(f"image of {im.pixel_size} px is smaller than the 21 modules of the symbol: negative quiet zone")
+                except (ValueError, TypeError):
+                    pass
+                except Exception as ex:  # noqa
+                    problems.append("unexpected " + err_name(ex))
+                R.oracle(f"fraction {where} {name} {val!r}", not problems, dict(input=f"{name}={val!r} ({where}) then make_image", expected="rejected, or accepted and held in range",
+                                                                                observed="; ".join(problems)), tag="P3:fraction")
     log(f"done: {len(R.corr_failures)} disagreements, {len(R.violations)} violations")
     R.assumptions += ["non-integer arguments go through Python's int()/isinstance; only the listed representatives are probed (P3 only)",
                       "bool is an int in Python (True is accepted as 1)"]
